@@ -51,6 +51,14 @@ def make_wl(rng, k):
     if k is not None and mode == "file" and k % 8 == 2:
         # killed while the read group table is being split into per-chromosome tables, then resumed
         opts["force_fault"] = {"kind": "kill", "stage": "setup", "label_rx": r":open:w:.*read_group_<chr>$", "nth": -1, "phase": "after"}
+    if k is not None and mode == "tag" and k % 16 == 4:
+        # free-text tag values with a blank at one end; killed right after the last (k = 4: first) chromosome was collected, resumed:
+        # the per-chromosome group lists written by the killed run are read back by the resumed one
+        spec["group_naming"] = 5
+        spec["group_tag"] = "XG"
+        opts["read_group"] = "tag"
+        spec["n_chr"] = max(3, spec.get("n_chr", 3))
+        opts["force_fault"] = {"kind": "kill", "label_rx": r":open:w:.*_collected$", "nth": -1 if k % 32 == 4 else 0, "phase": "after"}
     opts["annotated"] = True
     strats = ["unique_only", "with_ambiguous", "unique_splicing_consistent", "unique_inconsistent", "all"]
     opts["transcript_quant"] = strats[i % 5]
